@@ -778,4 +778,5 @@ func c12Pure(r *core.Run, rule string) {
 	}
 	keep = append(keep, reachFrom(w, keep, pCodec, core.Module+"/pkg/util/bytes")...)
 	pureOfRuntimeState(r, rule, "encoding / decoding of a message", keep, nil)
+	noPooledResult(r, rule, keep)
 }
